@@ -4,7 +4,7 @@ from .base import E, Loop, contract
 # ---------------------------------------------------------------------------------------------
 # _damp(x, y, s): step size d so that the cavity x - d*y stays a proper gamma (C05, C21)
 contract(
-    "variational._damp", mode="real",
+    "variational._damp", mode="real", gen="damp",
     shapes={"x": [2], "y": [2]},
     requires=[
         "0 < s and s < 1",
@@ -21,7 +21,7 @@ contract(
 
 # _rescale(x, s): factor d so that the shape 1 + d*x[0] lies in [1/s, s] (C05)
 contract(
-    "variational._rescale", mode="real",
+    "variational._rescale", mode="real", gen="rescale",
     shapes={"x": [2]},
     requires=[
         "s > 1",
